@@ -14,8 +14,9 @@ V = os.environ.get('VERIF_ROOT') or os.path.dirname(os.path.dirname(os.path.absp
 COQ = V + '/coq'
 CACHE = V + '/.cache'
 HARNESS = V + '/harness'
-REPLAYS = V + '/replays'
-EVIDENCE = V + '/evidence'
+# (scratch runs against a deliberately modified /repo set these so that committed evidence is not overwritten)
+REPLAYS = os.environ.get('VERIF_REPLAY_DIR') or V + '/replays'
+EVIDENCE = os.environ.get('VERIF_EVIDENCE_DIR') or V + '/evidence'
 sys.path.insert(0, V + '/gen')
 
 NPROC = 16
